@@ -148,12 +148,29 @@ def run(ctx):
         pems_priv = [m for fmt in ("ssleay", "pkcs8") for m in pem_mutations(sk.to_pem("uncompressed", fmt), rnd)]
         pems_priv += pem_mutations(vk.to_pem(), rnd)[:12]
         pems_pub += pem_mutations(sk.to_pem(), rnd)[:12]
+        # integers and OID arcs far beyond any sensible size (CPython >= 3.11 limits int -> str conversion: error messages
+        # that format such a value must not turn into ValueError)
+        from ecdsa import der as _der
+        huge = _der.encode_integer(1 << 20000)
+        hoid = _der.encode_oid(1, 3, 1 << 20000)
+        alg = _der.encode_oid(1, 2, 840, 10045, 2, 1)
+        ptbits = _der.encode_bitstring(vk.to_string("uncompressed"), 0)
+        priv += [_der.encode_sequence(huge, _der.encode_octet_string(sk.to_string())),
+                 _der.encode_sequence(huge, _der.encode_sequence(alg, c.encoded_oid), _der.encode_octet_string(b"x")),
+                 _der.encode_sequence(_der.encode_integer(1), _der.encode_sequence(hoid, c.encoded_oid), _der.encode_octet_string(sk.to_der())),
+                 _der.encode_sequence(_der.encode_integer(1), _der.encode_sequence(alg, hoid), _der.encode_octet_string(sk.to_der())),
+                 _der.encode_sequence(_der.encode_integer(1), _der.encode_octet_string(sk.to_string()), _der.encode_constructed(0, hoid)),
+                 _der.encode_sequence(_der.encode_integer(1), _der.encode_octet_string(sk.to_string()), _der.encode_constructed(1 << 4, hoid))]
+        spki += [_der.encode_sequence(_der.encode_sequence(alg, hoid), ptbits), _der.encode_sequence(_der.encode_sequence(hoid, c.encoded_oid), ptbits),
+                 _der.encode_sequence(_der.encode_sequence(alg, c.encoded_oid), _der.encode_bitstring(b"\x04" + b"\xff" * 3000, 0))]
         points = [m for enc in ("raw", "uncompressed", "compressed", "hybrid") for m in mutations(vk.to_string(enc), subs[:8], rnd, 1500)]
         skstr = mutations(sk.to_string(), subs[:6], rnd, 800) + [b"\x00" * c.baselen, b"\xff" * c.baselen, c.order.to_bytes(c.baselen, "big")]
         sig = sk.sign_deterministic(b"c10")
         sigder = sk.sign_deterministic(b"c10", sigencode=util.sigencode_der)
         sigs_raw = mutations(sig, subs[:8], rnd, 2500)
         sigs_der = mutations(sigder, subs, rnd, cap)
+        sigs_der += [util.sigencode_der(1 << 20000, 5, c.order), util.sigencode_der(5, 1 << 20000, c.order),
+                     b"\x30\x82\x10\x00" + b"\x02\x82\x0f\xfc" + b"\x7f" * 0xffc]
         r_, s_ = util.sigencode_strings(5, 7, c.order)
         sigs_pairs = [[r_, s_], [r_], [], [r_, s_, s_], [r_[:-1], s_], [r_, s_ + b"\x00"], [b"", b""], [r_, b""], [b"", s_],
                       [r_ + b"\x01", s_[:-1]], (r_, s_), [bytearray(r_), bytearray(s_)]]
